@@ -71,12 +71,47 @@ fn bodies(ctx: &mut Ctx) -> Vec<Vec<u8>> {
     out
 }
 
+/// Bodies whose extra value is nested close to the CBOR layer's recursion limit, each paired with the
+/// same body one nesting level shallower (for the attribution of the known boundary finding).
+fn deep_bodies(ctx: &mut Ctx) -> Vec<(Vec<u8>, Vec<u8>)> {
+    let d = *ctx.rng.pick(&[100usize, 120, 125, 126, 127, 128, 129, 130, 200, 250, 251, 252, 253, 254, 255]);
+    let kind = (ctx.rng.below(3)) as u8;
+    let mk = |d: usize| -> Vec<Vec<u8>> {
+        let mut h = vec![0xa1, 0x0a];
+        h.extend_from_slice(&crate::hostile::b4_nested(d, kind));
+        let mut out = Vec::new();
+        let mut m = vec![0x84, 0x40];
+        m.extend_from_slice(&h);
+        m.extend_from_slice(&[0xf6, 0x80]);
+        out.push(m);
+        let mut m4 = vec![0x84, 0x40];
+        m4.extend_from_slice(&h);
+        m4.extend_from_slice(&[0xf6, 0x40]);
+        out.push(m4);
+        let mut m5 = vec![0x85, 0x40];
+        m5.extend_from_slice(&h);
+        m5.extend_from_slice(&[0xf6, 0x40, 0x80]);
+        out.push(m5);
+        let mut m3 = vec![0x83, 0x40];
+        m3.extend_from_slice(&h);
+        m3.push(0xf6);
+        out.push(m3);
+        out
+    };
+    mk(d).into_iter().zip(mk(d - 1)).collect()
+}
+
 fn views_equal(a: &capi::CVal, b: &capi::CVal) -> bool {
     let mut n = Notes(vec![]);
     capi::view(a, &mut n) == capi::view(b, &mut n)
 }
 
 fn check_tagged_input(ctx: &mut Ctx, ty: Ty, head_tag: Option<u64>, single: bool, x: &[u8], body: &[u8], what: &str) {
+    check_tagged_input_ex(ctx, ty, head_tag, single, x, body, what, None)
+}
+
+#[allow(clippy::too_many_arguments)]
+fn check_tagged_input_ex(ctx: &mut Ctx, ty: Ty, head_tag: Option<u64>, single: bool, x: &[u8], body: &[u8], what: &str, shallower: Option<&[u8]>) {
     ctx.eval();
     let want_tag = ty.tag().unwrap();
     let untagged = capi::from_slice(ty, body);
@@ -92,7 +127,20 @@ fn check_tagged_input(ctx: &mut Ctx, ty: Ty, head_tag: Option<u64>, single: bool
                 ctx.violation(&format!("C14/tagged-value-differs/{}", ty.name()), "tagged decoding yields a different value than untagged decoding of the body".into(), wit());
             }
         }
-        (Err(k), true) => ctx.violation(&format!("C14/tagged-rejected/{}/{}", ty.name(), k.name()), format!("the registered tag {} around an acceptable body is rejected with {} ({})", want_tag, k.name(), what), wit()),
+        (Err(k), true) => {
+            let mut sig = format!("C14/tagged-rejected/{}/{}", ty.name(), k.name());
+            // known boundary finding: the tag itself consumes one level of the CBOR layer's recursion
+            // budget, so a body nested exactly to the limit is accepted untagged but not tagged.
+            // Attribution is counterfactual: the same body one level shallower must be accepted.
+            if let Some(sh) = shallower {
+                let mut y = x[..x.len() - body.len()].to_vec();
+                y.extend_from_slice(sh);
+                if capi::from_tagged_slice(ty, &y).is_ok() && capi::from_slice(ty, sh).is_ok() {
+                    sig = "C14/tagged-rejects-body-nested-exactly-to-the-cbor-recursion-limit".to_string();
+                }
+            }
+            ctx.violation(&sig, format!("the registered tag {} around an acceptable body is rejected with {} ({})", want_tag, k.name(), what), wit())
+        }
         (Ok(_), false) => ctx.violation(
             &format!("C14/tagged-accepted-wrongly/{}", ty.name()),
             format!("from_tagged_slice accepted {} (tag {:?}, registered {}, body acceptable untagged: {})", what, head_tag, want_tag, untagged.is_ok()),
@@ -122,6 +170,7 @@ impl Check for C14 {
             Phase { name: "no tag / doubly tagged (same, different, 55799 outside or inside) / tag inside the array", cases: scale(if q { 2000 } else { 50000 }, b), exhaustive: false },
             Phase { name: "to_tagged_vec == registered tag head || to_vec; round trip; cross-type exclusivity", cases: scale(if q { 6000 } else { 200000 }, b), exhaustive: false },
             Phase { name: "the crate's TAG constants equal RFC 8152 Table 1", cases: 6, exhaustive: true },
+            Phase { name: "bodies with an extra value nested 100-255 deep (the CBOR layer's limit is 256) under the registered tag in every head width", cases: scale(if q { 400 } else { 10000 }, b), exhaustive: false },
         ]
     }
     fn run_case(&self, ctx: &mut Ctx, phase: usize, idx: u64) {
@@ -150,9 +199,30 @@ impl Check for C14 {
                 let t = ty.tag().unwrap();
                 // untagged input offered to the tagged entry point
                 check_tagged_input(ctx, ty, None, false, &body, &body, "no tag");
-                let others = [t, 55799, t + 1, 16, 18, 98, 0];
+                // wrappers that are "no-ops" elsewhere (self-described CBOR, embedded CBOR, CWT, date/time,
+                // bignum tags) must not be looked through, on either side of the registered tag, nor
+                // around a bstr holding the encoded body
+                for w in [55799u64, 24, 61, 0, 1, 2, 3, 32, 21, 22, 23, 63] {
+                    let wrapped_body = Item::Tag(w, Box::new(body_item.clone()));
+                    let wrapped_bstr = Item::Tag(w, Box::new(Item::Bytes(body.clone())));
+                    for (what, x, head) in [
+                        ("w(body)", rcbor::det(&wrapped_body), None),
+                        ("w(bstr(body))", rcbor::det(&wrapped_bstr), None),
+                        ("T(w(body))", rcbor::det(&Item::Tag(t, Box::new(wrapped_body.clone()))), Some(t)),
+                        ("T(w(bstr(body)))", rcbor::det(&Item::Tag(t, Box::new(wrapped_bstr.clone()))), Some(t)),
+                        ("w(T(body))", rcbor::det(&Item::Tag(w, Box::new(Item::Tag(t, Box::new(body_item.clone()))))), Some(w)),
+                        ("T(bstr(body))", rcbor::det(&Item::Tag(t, Box::new(Item::Bytes(body.clone())))), Some(t)),
+                    ] {
+                        ctx.nontrivial_bytes(&x);
+                        ctx.count(&format!("wrapper-form:{}", what));
+                        // the body of these forms is never acceptable: either the outer tag is wrong
+                        // or the content of the right tag is itself a tag / a bstr, not the array
+                        check_tagged_input(ctx, ty, head, false, &x, &body, what);
+                    }
+                }
+                let others = [t, 55799, t + 1, 16, 18, 98, 0, 61, 24];
                 for outer in others {
-                    for inner in [t, 55799] {
+                    for inner in [t, 55799, 24, 61] {
                         let x = rcbor::det(&Item::Tag(outer, Box::new(Item::Tag(inner, Box::new(body_item.clone())))));
                         ctx.nontrivial_bytes(&x);
                         check_tagged_input(ctx, ty, Some(outer), false, &x, &body, "doubly tagged");
@@ -217,6 +287,21 @@ impl Check for C14 {
                     }
                     (Err(_), Err(_)) => ctx.count("both-encodings-failed"),
                     _ => ctx.violation(&format!("C14/tagged-plain-encode-disagree/{}", ty.name()), "exactly one of to_vec / to_tagged_vec failed".into(), wit(&tagged, &plain)),
+                }
+            }
+            4 => {
+                for (body, shallower) in deep_bodies(ctx) {
+                    for ty in TAGGED_TYPES {
+                        let t = ty.tag().unwrap();
+                        for n in [t, t + 1, t + (1 << 32)] {
+                            for head in tag_heads(n) {
+                                let mut x = head.clone();
+                                x.extend_from_slice(&body);
+                                ctx.nontrivial_bytes(&x);
+                                check_tagged_input_ex(ctx, ty, Some(n), true, &x, &body, "single tag, deeply nested body", Some(&shallower));
+                            }
+                        }
+                    }
                 }
             }
             _ => {
